@@ -6,7 +6,7 @@ import (
 	"os"
 	"path/filepath"
 
-	_ "verif/internal/checks"
+	"verif/internal/checks"
 	"verif/internal/harness"
 )
 
@@ -18,6 +18,8 @@ func main() {
 	switch os.Args[1] {
 	case "worker":
 		os.Exit(harness.WorkerMain(os.Args[2:]))
+	case "fresh-outcome":
+		os.Exit(checks.FreshOutcomeMain(os.Args[2:]))
 	case "run":
 		tier := "quick"
 		if len(os.Args) > 3 {
